@@ -4,7 +4,8 @@ C05, C06, C07, C13, C14, C16, C19."""
 from fractions import Fraction
 
 from .base import Base, complete
-from ..driver import Plan, draw_N, draw_costs, draw_units, UF_GRID, WD_GRID
+from ..driver import (Plan, draw_N, draw_costs, draw_costs_inexact,
+                      draw_units, UF_GRID, WD_GRID)
 from .. import oracles as O
 
 
@@ -131,7 +132,12 @@ class C05(Base):
             s = rng.choice((1, 1, 2, 2, 3, 4, 5, 6, 8, N, N + 1))
             s = max(1, min(s, 14))
             costs = draw_costs(rng)
-            if rng.random() < 0.12:
+            if rng.random() < 0.1:
+                # costs that are not exact in binary floating point: the
+                # step count is still decided (a wrong split costs a whole
+                # forward step, rounding errors are 1e-13 at most)
+                costs = draw_costs_inexact(rng)
+            elif rng.random() < 0.12:
                 # badly scaled (still exactly representable) cost vectors
                 big = rng.choice(("1048576", "1073741824", "17179869184"))
                 if rng.random() < 0.5:
@@ -331,9 +337,13 @@ class C06(Base):
 class C07(Base):
     ID = "C07"
     TECHNIQUE = ('deterministic simulation: run-groups executed on the reference machine with a simulated cost clock; makespan compared with exact reference recurrences (validated by exact search) and group inequalities')
-    EXPECTED_PROBES = ('hrevolve_used_disk', 'disk_checkpoint_reread')
+    EXPECTED_PROBES = ('hrevolve_used_disk', 'disk_checkpoint_reread', 'c07_inexact_costs')
     BATCH = 4
     SIZES = {"quick": (48, 48), "thorough": (128, 128)}
+    #: share of groups whose cost vector is not exact in binary floating point
+    INEXACT = 0.15
+    #: relative tolerance for those groups only
+    TOL = Fraction(1, 10 ** 9)
     RULE = ("run-groups with equal (N, RAM units, cost vector): HRevolve for "
             "a sweep of disk unit counts, DiskRevolve, Revolve and "
             "PeriodicDiskRevolve, each drained on the machine; the simulated"
@@ -341,7 +351,10 @@ class C07(Base):
             " wd per DISK write, rd per DISK load, exact rationals) is "
             "compared with Opt_1(N-1,d)+N*uf / Opt_inf+N*uf / Opt_0+N*uf and "
             "the inequalities of the statement are checked inside the group; "
-            "costs on the dyadic grid k/8, 80% with uf!=ub and wd!=rd; "
+            "costs on the dyadic grid k/8, 80% with uf!=ub and wd!=rd; 15% of "
+            "the groups use costs that are not exact in binary floating point "
+            "(tenths, thirds, sevenths): there the comparison allows a "
+            "relative 1e-9 (the library plans with the nearest doubles); "
             "non-trivial = some HRevolve member of the group wrote to DISK "
             "or uf != ub")
     ASSUMPTIONS = [
@@ -350,8 +363,10 @@ class C07(Base):
         "recurrence, re-implemented with exact integer arithmetic; validated"
         " for small sizes by exact search at setup",
         "measured makespan = model value + N*uf (the N taped steps)",
-        "costs restricted to multiples of 1/8 with (wd+rd)/uf <= 64 so that "
-        "the library's float tables are exact",
+        "(wd+rd)/uf <= 64; for cost vectors on the grid k/8 the library's "
+        "float tables are exact and equality is demanded; for the others a "
+        "relative tolerance of 1e-9 (floating-point planning error is below "
+        "1e-12 at these sizes)",
     ]
 
     def plan(self, rng, tier, idx):
@@ -359,6 +374,8 @@ class C07(Base):
         N = draw_N(rng, nmax, small=max(10, nmax // 6))
         s = rng.choice((1, 1, 1, 2, 2, 3, 4, 5, 6))
         costs = draw_costs(rng, default_p=0.05)
+        if rng.random() < self.INEXACT:
+            costs = draw_costs_inexact(rng)
         dmax = rng.choice((1, 2, 3, 4, 6))
         ds = sorted({0, 1, dmax, rng.randint(0, dmax), rng.randint(0, dmax)})
         slots = [({"cls": "HRevolve", "N": N, "p": dict(costs, s=s, d=d)}, 1,
@@ -379,8 +396,11 @@ class C07(Base):
             p = s.cfg["p"]
             tag = f"N={s.N} s={p['s']}" + (f" d={p['d']}" if "d" in p else "") \
                 + f" uf={p['uf']} ub={p['ub']} wd={p['wd']} rd={p['rd']}"
+            tol = 0 if O.costs_exact_in_binary(p) else self.TOL
+            if tol:
+                w.probe("c07_inexact_costs")
             if exp is not None:
-                if got > exp:
+                if got > exp * (1 + tol):
                     self.own(w, f"cost_above_optimum:{s.cls}", s,
                              f"cost {got} ({m.fwd_steps} fwd, {m.rev_steps} "
                              f"rev, {m.disk_writes} disk writes, "
@@ -392,7 +412,7 @@ class C07(Base):
                              f"cost {got} below the reference optimum {exp} "
                              f"for {tag}")
             grp = (s.N, p["s"], p["uf"], p["ub"], p["wd"], p["rd"])
-            cost[(grp, s.cls, p.get("d"))] = (got, s)
+            cost[(grp, s.cls, p.get("d"))] = (got, s, tol)
             if s.cls == "HRevolve" and (m.disk_writes or p["uf"] != p["ub"]):
                 w.probe("c07_nontrivial_member")
             if s.cls == "HRevolve" and m.disk_writes:
@@ -403,8 +423,8 @@ class C07(Base):
         for grp in sorted({k[0] for k in cost}):
             hs = sorted((k[2], v) for k, v in cost.items()
                         if k[0] == grp and k[1] == "HRevolve")
-            for (d1, (c1, s1)), (d2, (c2, s2)) in zip(hs, hs[1:]):
-                if c2 > c1:
+            for (d1, (c1, s1, tol)), (d2, (c2, s2, _)) in zip(hs, hs[1:]):
+                if c2 > c1 * (1 + tol):
                     self.own(w, "monotone_d", s2,
                              f"cost(HRevolve, d={d2}) = {c2} > "
                              f"cost(HRevolve, d={d1}) = {c1} for N={grp[0]} "
@@ -412,12 +432,12 @@ class C07(Base):
             dr = cost.get((grp, "DiskRevolve", None))
             rv = cost.get((grp, "Revolve", None))
             pd = cost.get((grp, "PeriodicDiskRevolve", None))
-            if dr and rv and dr[0] > rv[0]:
+            if dr and rv and dr[0] > rv[0] * (1 + dr[2]):
                 self.own(w, "disk_vs_revolve", dr[1],
                          f"cost(DiskRevolve) = {dr[0]} > cost(Revolve) = "
                          f"{rv[0]} for N={grp[0]} s={grp[1]} "
                          f"costs={grp[2:]}")
-            if dr and pd and pd[0] < dr[0]:
+            if dr and pd and pd[0] * (1 + dr[2]) < dr[0]:
                 self.own(w, "periodic_vs_disk", pd[1],
                          f"cost(PeriodicDiskRevolve) = {pd[0]} < "
                          f"cost(DiskRevolve) = {dr[0]} for N={grp[0]} "
